@@ -248,6 +248,22 @@ def observers(ctx):
     ra = repo.func(RUNNER, "RunningState.append")
     stores = [norm(n) for n in own_nodes(ra.node) if isinstance(n, ast.Assign)]
     ok = stores == ["self.values[name][:, self.step] = value"]
+    if not ok:
+        # the same store spelled through locals (`buffer = self.values[name]; column = (slice(None), self.step); buffer[column] = value`):
+        # exactly one element store, into a column of the own buffer, of the value handed in; nothing is rebound on self
+        from ..dataflow import expand as _exp
+        sub = [n for n in own_nodes(ra.node) if isinstance(n, ast.Assign) and len(n.targets) == 1 and isinstance(n.targets[0], ast.Subscript)]
+        attr_st = [n for n in own_nodes(ra.node) if isinstance(n, ast.Assign) and any(isinstance(t, ast.Attribute) for t in n.targets)]
+        if len(sub) == 1 and not attr_st:
+            t = sub[0].targets[0]
+            try:
+                base = norm(_exp(ra.node, t.value)) if isinstance(t.value, ast.Name) else norm(t.value)
+                sl = _exp(ra.node, t.slice) if isinstance(t.slice, ast.Name) else t.slice
+            except Exception:
+                base, sl = norm(t.value), t.slice
+            sl_t = norm(sl).replace(" ", "")
+            ok = base == "self.values[name]" and sl_t in ("(:,self.step)", ":,self.step", "(slice(None),self.step)", "slice(None),self.step") \
+                and norm(sub[0].value) == "value"
     ctx.ob("R11.2", "RunningState.append copies the value into its own buffer column", ok, detail=stores, where=ra.fq,
            construct="RunningState.append", message=f"append does {stores}", consequence="the record buffer aliases solver arrays")
     fu = repo.func(SOLVER, "TDGLSolver.update")
